@@ -288,9 +288,14 @@ func ftRun(fn *ssa.Function, args []map[string]ftree, scalars []ftree, depth int
 				}
 				aargs = append(aargs, ag)
 			}
-			rv, cenv, _, why := ftRun(cf, aargs, sargs, depth+1)
+			rv, cenv, ccmp, why := ftRun(cf, aargs, sargs, depth+1)
 			if why != "" {
 				return nil, env, nil, why
+			}
+			if rv == nil && ccmp != nil {
+				// the determinant test sits in the callee (Inverse wrapping a TryInverse): what the
+				// test decides is followed by the interpreter's rule on Inverse; here, its operand
+				return nil, cenv, ccmp, ""
 			}
 			if rv == nil {
 				return nil, env, nil, "callee does not return from its first block: " + shortFn(cf)
